@@ -3,6 +3,7 @@
 package hdf5
 
 import (
+	"bytes"
 	"reflect"
 	"encoding/binary"
 	"fmt"
@@ -602,9 +603,81 @@ func vfC12Run(dir string, c vfC12Case) (problems []string, detail map[string]any
 	return vfUniq(problems), detail
 }
 
+// vfC12ReaderIDs: the library's heap reader on collections as the reference library leaves
+// them after elements were rewritten or deleted: object indices that are not 1..n in order
+// (gaps, descending, a single high index). Every index of every permutation of every subset
+// of {1,2,3,4,7} with up to 4 objects is stored with its own content; GetObject(i) must hand
+// back exactly the object stored under i, and an error for every index that is not stored.
+func vfC12ReaderIDs(r *vkit.Run) {
+	r.Rule("reader family: synthetic collections holding every ordered selection of up to 4 object indices from {1,2,3,4,7} (gaps, any order): GetObject(i) for i in 0..8 returns the object stored under i, or an error when none is")
+	pool := []int{1, 2, 3, 4, 7}
+	var n int64
+	var rec func(cur []int, used map[int]bool)
+	rec = func(cur []int, used map[int]bool) {
+		if len(cur) > 0 {
+			n++
+			img := make([]byte, 4096)
+			copy(img, "GCOL")
+			img[4] = 1
+			binary.LittleEndian.PutUint64(img[8:], 4096)
+			pos := 16
+			content := func(id int) []byte { return []byte(fmt.Sprintf("object-%d-%s", id, strings.Repeat("x", id))) }
+			for _, id := range cur {
+				d := content(id)
+				binary.LittleEndian.PutUint16(img[pos:], uint16(id))
+				binary.LittleEndian.PutUint16(img[pos+2:], 1)
+				binary.LittleEndian.PutUint64(img[pos+8:], uint64(len(d)))
+				copy(img[pos+16:], d)
+				pos += 16 + (len(d)+7)&^7
+			}
+			binary.LittleEndian.PutUint64(img[pos+8:], uint64(4096-pos-16)) // free-space object (index 0)
+			detail := map[string]any{"object_indices_in_storage_order": append([]int{}, cur...)}
+			r.Case(fmt.Sprint("reader-ids ", cur))
+			r.Guard("reader-ids/", detail, func() {
+				gc, err := core.ReadGlobalHeapCollection(bytes.NewReader(img), 0, 8)
+				if err != nil {
+					detail["error"] = err.Error()
+					r.Fail("reader-ids/collection-rejected", detail)
+					return
+				}
+				ok := true
+				for i := 0; i <= 8; i++ {
+					ob, err := gc.GetObject(uint32(i))
+					switch {
+					case used[i] && (err != nil || ob == nil || !bytes.Equal(ob.Data, content(i))):
+						detail["index"] = i
+						r.Fail("reader-ids/stored-object-not-returned", detail)
+						ok = false
+					case !used[i] && i != 0 && err == nil && ob != nil && len(ob.Data) > 0:
+						detail["index"], detail["returned"] = i, string(ob.Data)
+						r.Fail("reader-ids/absent-index-returns-another-object", detail)
+						ok = false
+					}
+				}
+				if ok {
+					r.Outcome("reader-ids-ok")
+				}
+			})
+		}
+		if len(cur) == 4 {
+			return
+		}
+		for _, id := range pool {
+			if !used[id] {
+				used[id] = true
+				rec(append(cur, id), used)
+				used[id] = false
+			}
+		}
+	}
+	rec(nil, map[int]bool{})
+	r.Set("reader_family_synthetic_collections", n)
+}
+
 func TestVerif_C12(t *testing.T) {
 	r := vkit.Start(t, "C12", "exploration")
 	defer r.Finish()
+	vfC12ReaderIDs(r)
 	dir := vkit.Scratch(t)
 	types := vfVLTypes()
 	alpha := []int{0, 1, 7, 8, 9, 4063, 4064, 4065, 4072, 4080, 4081, 65537}
